@@ -117,6 +117,14 @@ func (r *MemoryModelRegistry) RegisterModels(ctx context.Context, endpointURL st
 	default:
 	}
 
+	// Validate the whole batch before touching any state, so that a rejected
+	// update leaves the previous attribution for this endpoint intact.
+	for _, model := range models {
+		if model != nil && model.Name == "" {
+			return domain.NewModelRegistryError("register_models", endpointURL, model.Name, fmt.Errorf("model name cannot be empty"))
+		}
+	}
+
 	r.mu.Lock()
 	defer r.mu.Unlock()
 
@@ -132,9 +140,6 @@ func (r *MemoryModelRegistry) RegisterModels(ctx context.Context, endpointURL st
 	for _, model := range models {
 		if model == nil {
 			continue // Skip nil models
-		}
-		if model.Name == "" {
-			return domain.NewModelRegistryError("register_models", endpointURL, model.Name, fmt.Errorf("model name cannot be empty"))
 		}
 
 		modelsCopy = append(modelsCopy, &domain.ModelInfo{
